@@ -140,9 +140,16 @@ func base(n string) Blob { return Blob{Base: n} }
 func patched(n string, ps ...Patch) Blob { return Blob{Base: n, Patch: ps} }
 func P(off, del int, ins []byte) Patch { return Patch{off, del, hex.EncodeToString(ins)} }
 
+func hxBytes(b []byte) string {
+	if len(b) == 0 {
+		return "(hx 0 0)"
+	}
+	return fmt.Sprintf("(hx %d 0x%s)", len(b), hex.EncodeToString(b))
+}
+
 func coqBytes(b []byte) string {
-	if len(b) <= 48 {
-		return coqout.Bytes(b)
+	if len(b) <= 64 {
+		return hxBytes(b)
 	}
 	var ws []string
 	for i := 0; i < len(b); i += 8 {
@@ -177,19 +184,13 @@ func (b Blob) coq() string {
 
 // ---------------------------------------------------------------- fingerprint (= Verif.Pcs.Model.fp)
 
-const fpP = uint64(1)<<61 - 1
-
 func fp(b []byte) uint64 {
-	acc := new(big.Int).SetUint64(uint64(len(b)))
-	p := new(big.Int).SetUint64(fpP)
-	m := big.NewInt(257)
-	t := new(big.Int)
+	const mask = uint64(1)<<63 - 1
+	acc := uint64(len(b))
 	for _, x := range b {
-		acc.Mul(acc, m)
-		acc.Add(acc, t.SetUint64(uint64(x)+1))
-		acc.Mod(acc, p)
+		acc = (acc*257 + uint64(x) + 1) & mask
 	}
-	return acc.Uint64()
+	return acc
 }
 
 // ---------------------------------------------------------------- independent location of the quote's regions
@@ -427,7 +428,7 @@ func classify(err error) int {
 	switch {
 	case has(e, "failed to verify QE identity"):
 		switch {
-		case has(e, "TCB signature verification failed", "encoding/hex", "malformed signature"):
+		case has(e, "invalid QE identity: pcs/tcb: TCB signature verification failed", "invalid QE identity: encoding/hex", "invalid QE identity: malformed signature"):
 			return 50
 		case has(e, "malformed QE identity body"):
 			return 51
@@ -682,7 +683,7 @@ func evaluate(c CaseD) (res result) {
 	var sha, ecd, akv, pck, tdid []string
 	addSha := func(b []byte) []byte {
 		d := sha256.Sum256(b)
-		sha = append(sha, fmt.Sprintf("(%d, %s)", fp(b), coqout.Bytes(d[:])))
+		sha = append(sha, fmt.Sprintf("(%d, %s)", fp(b), hxBytes(d[:])))
 		return d[:]
 	}
 	addEcdsa := func(pk *ecdsa.PublicKey, digest, sig []byte) bool {
@@ -715,7 +716,7 @@ func evaluate(c CaseD) (res result) {
 			for i := 0; i < 4; i++ {
 				_, _ = h.Write(r.body[328+48*i : 376+48*i])
 			}
-			tdid = append(tdid, fmt.Sprintf("(%d, %s)", fp(m), coqout.Bytes(h.Sum(nil))))
+			tdid = append(tdid, fmt.Sprintf("(%d, %s)", fp(m), hxBytes(h.Sum(nil))))
 		}
 		// certification data
 		var pemOK bool
@@ -736,7 +737,7 @@ func evaluate(c CaseD) (res result) {
 							for _, x := range pi.TCBCompSVN {
 								sv = append(sv, int64(x))
 							}
-							info = fmt.Sprintf("PckOk (mkPck %s %s %s %d)", coqBytes(pkBytes(pi.PublicKey)), coqout.Bytes(pi.FMSPC), zlist(sv), pi.PCESVN)
+							info = fmt.Sprintf("PckOk (mkPck %s %s %s %d)", coqBytes(pkBytes(pi.PublicKey)), hxBytes(pi.FMSPC), zlist(sv), pi.PCESVN)
 							addEcdsa(pi.PublicKey, qeDigest, r.qeSig)
 						case strings.Contains(perr.Error(), "non-ECDSA"):
 							info = "PckBadKey"
@@ -783,9 +784,9 @@ func evaluate(c CaseD) (res result) {
 	coll := fmt.Sprintf("(mkColl %s %s %s %s %s)", c.TI.coq(), c.TISig.coq(), c.QI.coq(), c.QISig.coq(), c.Certs.coq())
 	kase := fmt.Sprintf("(mkCase (mkEnv %s %s []) %s (%d)%%Z %s %s %s)", coqout.Bool(c.Env.AllowDebug), coqout.Bool(c.Env.Lax),
 		c.Policy.coq(), c.TsNs, c.Quote.coq(), coll, tables)
-	exp := fmt.Sprintf("(%d, (%s, %s, %s))", res.code, coqout.Bytes(res.out[0]), coqout.Bytes(res.out[1]), coqout.Bytes(res.out[2]))
+	exp := fmt.Sprintf("(%d, (%s, %s, %s))", res.code, hxBytes(res.out[0]), hxBytes(res.out[1]), hxBytes(res.out[2]))
 	if res.code != 0 {
-		exp = fmt.Sprintf("(%d, ([], [], []))", res.code)
+		exp = fmt.Sprintf("(%d, (hx 0 0, hx 0 0, hx 0 0))", res.code)
 	}
 	res.term = "(" + kase + ", " + exp + ")"
 	res.stage = stageName(res.code)
